@@ -910,6 +910,26 @@ func (env *SpecEnv) call(x *ast.CallExpr) Val {
 			specErr("old() without a pre-state")
 		}
 		return env.with(env.old).eval(x.Args[0])
+	case "fresh": // fresh(p): the object p points to was allocated after the pre-state (beyond its allocation frontier)
+		if env.old == nil {
+			specErr("fresh() without a pre-state")
+		}
+		v := env.rv(env.eval(x.Args[0]))
+		if _, ok := v.typ.Underlying().(*types.Pointer); !ok {
+			specErr("fresh() needs a pointer")
+		}
+		// a whole object (references of objects are positive, interior references negative) beyond the frontier
+		vc.elemRef(app("elem_arr", v.t), app("elem_idx", v.t))
+		return Val{t: app(">", v.t, vc.he.get(env.old, "ALLOC", "Int")), typ: boolT}
+	case "whole": // whole(p): p points to an allocated object itself, not into one (not a slice element or embedded struct)
+		v := env.rv(env.eval(x.Args[0]))
+		if _, ok := v.typ.Underlying().(*types.Pointer); !ok {
+			specErr("whole() needs a pointer")
+		}
+		// (instance of "element references are negative" at p, so that frame conditions phrased over
+		// element references can tell p apart from them)
+		vc.elemRef(app("elem_arr", v.t), app("elem_idx", v.t))
+		return Val{t: app(">", v.t, "0"), typ: boolT}
 	case "imp":
 		return Val{t: implies(env.evalBool(x.Args[0]), env.evalBool(x.Args[1])), typ: boolT}
 	case "ite":
